@@ -16,6 +16,7 @@ package originium
 
 import (
 	"errors"
+	"math"
 
 	"github.com/B1NARY-GR0UP/originium/types"
 	"github.com/B1NARY-GR0UP/originium/utils"
@@ -26,6 +27,15 @@ var (
 	ErrDiscardedTxn = errors.New("transaction has been discarded")
 	ErrConflictTxn  = errors.New("transaction has a conflict")
 	ErrEmptyKey     = errors.New("key is empty")
+	ErrKeyTooLarge  = errors.New("key is too large")
+	ErrValTooLarge  = errors.New("value is too large")
+)
+
+// sstables store key and value lengths in 16 bits,
+// a stored key is the user key followed by "@" and the commit timestamp (up to 20 digits)
+const (
+	maxKeySize   = math.MaxUint16 - 21
+	maxValueSize = math.MaxUint16
 )
 
 type Txn struct {
@@ -151,6 +161,10 @@ func (t *Txn) modify(e types.Entry) error {
 		return ErrDiscardedTxn
 	case e.Key == "":
 		return ErrEmptyKey
+	case len(e.Key) > maxKeySize:
+		return ErrKeyTooLarge
+	case len(e.Value) > maxValueSize:
+		return ErrValTooLarge
 	}
 
 	// record key fingerprint
